@@ -31,7 +31,7 @@ ARITY = {
     "SIGNEXTEND": (2, 1), "LT": (2, 1), "GT": (2, 1), "SLT": (2, 1), "SGT": (2, 1), "EQ": (2, 1),
     "ISZERO": (1, 1), "AND": (2, 1), "OR": (2, 1), "XOR": (2, 1), "NOT": (1, 1), "BYTE": (2, 1),
     "SHL": (2, 1), "SHR": (2, 1), "SAR": (2, 1), "SHA3": (2, 1), "KECCAK256": (2, 1),
-    "BALANCE": (1, 1), "CALLDATALOAD": (1, 1), "CALLDATACOPY": (3, 0), "CODECOPY": (3, 0),
+    "BALANCE": (1, 1), "CALLDATALOAD": (1, 1), "CALLDATACOPY": (3, 0), "CODECOPY": (3, 0), "MCOPY": (3, 0),
     "EXTCODESIZE": (1, 1), "EXTCODECOPY": (4, 0), "EXTCODEHASH": (1, 1), "BLOCKHASH": (1, 1),
     "SELFBALANCE": (0, 1), "RETURNDATASIZE": (0, 1), "RETURNDATACOPY": (3, 0),
     "POP": (1, 0), "MLOAD": (1, 1), "MSTORE": (2, 0), "MSTORE8": (2, 0), "SLOAD": (1, 1),
@@ -427,6 +427,12 @@ class Machine:
             self.events.append((name, val, self.mem_slice(off, size), salt, self.sto_digest()))
             self.external_epoch()
             push(_h("created", self.st.seed, self.epoch) & M160)
+        elif name == "MCOPY":
+            d, o, s = pop(), pop(), pop()
+            n = min(s, 2048)
+            data = [self.mem_get(o + i) for i in range(n)]
+            for i in range(n):
+                self.mem[d + i] = data[i]
         elif name == "CALLDATACOPY":
             d, o, s = pop(), pop(), pop()
             self.events.append((name, d, o, s))
